@@ -91,10 +91,12 @@ func Build[G any](options ...Option) (parser *Parser[G], err error) {
 			if len(mapper.symbols) == 0 {
 				untyped = append(untyped, mapper.mapper)
 			} else {
+				listed := map[lexer.TokenType]bool{} // A symbol listed twice in one option still maps its tokens once.
 				for _, symbol := range mapper.symbols {
 					if rn, ok := symbols[symbol]; !ok {
 						return nil, fmt.Errorf("mapper %#v uses unknown token %q", mapper, symbol)
-					} else { // nolint: golint
+					} else if !listed[rn] {
+						listed[rn] = true
 						mappers[rn] = append(mappers[rn], mapper.mapper)
 					}
 				}
